@@ -75,7 +75,7 @@ func versionCases(fn *ssa.Function, isV func(ssa.Value) bool) (cases []int64, ha
 func c19(c *Ctx) {
 	p, r := c.P, c.R
 	r.Technique = "single-source value-flow check of every version-dependent branch; sibling agreement of the version sets handled by accept building, accept parsing and the advertised default; must-pass-through (cut) checks for error propagation and error-gated caching in the negotiation helper"
-	r.Explanation = "Decides: (R1) every version-dependent branch (accept building, accept parsing, uTP framing in both directions, the RPC's bit-list conversion) takes its operand from the one negotiation helper applied to a peer record, and every caller of the helper returns without transfer when it reports an error; the record given to the helper is the one the exchange came with (followed through parameters and captured variables to the talk handler), never one looked up in the routing table; (R2) the version sets handled by accept building and accept parsing are equal to each other and to the advertised default set, both reject other versions with the unsupported-version error, and the uTP encoder and decoder dispatch on the same version constant to the inverse pair of framing functions; (R3) in the helper: a cached value is returned as is, an absent record key yields the first local version, the computed error is returned, the result is the highest-common-version function applied to (local versions, peer versions), and the cache is written only on paths where the error is nil. Not decided: the max-of-intersection computation over all subsets (value level), live transfers."
+	r.Explanation = "Decides: (R1) every version-dependent branch (accept building, accept parsing, uTP framing in both directions, the RPC's bit-list conversion) takes its operand from the one negotiation helper applied to a peer record, and every caller of the helper returns without transfer when it reports an error; the record given to the helper is the one the exchange came with (followed through parameters and captured variables to the talk handler), never one looked up in the routing table; the local version list is the local record's entry (or the default) as it is, not a part or rearrangement of it; (R2) the version sets handled by accept building and accept parsing are equal to each other and to the advertised default set, both reject other versions with the unsupported-version error, and the uTP encoder and decoder dispatch on the same version constant to the inverse pair of framing functions; (R3) in the helper: a cached value is returned as is, an absent record key yields the first local version, the computed error is returned, the result is the highest-common-version function applied to (local versions, peer versions), and the cache is written only on paths where the error is nil. Not decided: the max-of-intersection computation over all subsets (value level), live transfers."
 	r.Assumptions = []string{"enr.IsNotFound identifies an absent key", "the versions cache is a faithful map"}
 	r.Floor("R1.single-source", 5)
 	r.Floor("R1.error-stops", 5)
@@ -396,6 +396,75 @@ func c19(c *Ctx) {
 		}
 	}
 
+	// ---- R1c the list the node negotiates with IS the list it advertises: the field is filled
+	// with what the local record's version entry holds (or the default the record is given when it
+	// has none), not with a part or a rearrangement of it - peers compute from the advertised set
+	{
+		nInit := 0
+		for _, w := range p.FieldWrites("PortalProtocol", "currentVersions") {
+			nInit++
+			bad := ""
+			for _, leaf := range listLeaves(w.Val) {
+				switch x := leaf.(type) {
+				case *ssa.UnOp:
+					if x.Op == token.MUL {
+						if _, isG := x.X.(*ssa.Global); isG {
+							continue
+						}
+						if a, isA := x.X.(*ssa.Alloc); isA {
+							okCell := true
+							for _, rf := range *a.Referrers() {
+								if st, isSt := rf.(*ssa.Store); isSt && st.Addr == ssa.Value(a) {
+									if core.IsEmptySlice(st.Val) {
+										continue
+									}
+									for _, l2 := range listLeaves(st.Val) {
+										u2, isU := l2.(*ssa.UnOp)
+										if _, isC := l2.(*ssa.Const); isC {
+											continue
+										}
+										if isU && u2.Op == token.MUL {
+											if _, isG := u2.X.(*ssa.Global); isG {
+												continue
+											}
+										}
+										if core.IsEmptySlice(l2) {
+											continue
+										}
+										okCell = false
+									}
+								}
+							}
+							if okCell {
+								continue
+							}
+						}
+					}
+				case *ssa.Const:
+					continue
+				}
+				bad = "derived value at " + p.Pos(w.Store.Pos())
+			}
+			// a re-slice / append anywhere between the record and the field
+			core.Derives(w.Val, func(v ssa.Value) bool {
+				switch y := v.(type) {
+				case *ssa.Slice:
+					if !core.IsEmptySlice(y) {
+						bad = "re-sliced at " + p.Pos(y.Pos())
+					}
+				case *ssa.Call:
+					if id := core.CalleeID(y); id == "builtin.append" || strings.HasPrefix(id, "slices.") || strings.HasPrefix(id, "sort.") {
+						bad = id + " at " + p.Pos(y.Pos())
+					}
+				}
+				return false
+			}, core.DeriveOpts{})
+			r.Check(bad == "", "R1.local-versions-immutable", core.FuncName(w.Fn)+" uses-advertised-list", p.Pos(w.Store.Pos()), "the local version list is the record's entry (or the default) as it is", "the list the node negotiates with is not the list its record advertises ("+bad+"): peers compute the common version from the advertised set and the two ends can disagree")
+		}
+		if nInit == 0 {
+			r.Fail("R1.local-versions-immutable", "local version list", "-", "anchor-unresolved: no write to PortalProtocol.currentVersions")
+		}
+	}
 	// ---- R1b the local version list is immutable after construction
 	{
 		isLocal := func(v ssa.Value) bool { _, f, ok := core.LoadedField(v); return ok && f == "currentVersions" }
